@@ -19,7 +19,24 @@ async def main():
     await asyncio.sleep(0)
     fx.set_exception(RuntimeError("boom"))
     for _ in range(5): await asyncio.sleep(0)
-    fy.set_result(WorkResult("y"))
+    from graphql.execution.incremental.incremental_executor import ExecutionGroupValue
+    fy.set_result(WorkResult(ExecutionGroupValue([C], [], {"y": 1}, None)))
     await t
     for b in out: print(b)
-asyncio.run(main())
+    # since commit 3bf99e2 the work queue still reports the failure of the never announced group B
+    # (pinned by an upstream test); the publisher drops it.  Check the publisher.
+    from graphql.execution.incremental.incremental_publisher import IncrementalPublisher
+    class P:
+        def __init__(s, l): s.l = l
+        def as_list(s): return s.l
+    for g in (A, B, C): g.path, g.label = P([]), g.name
+    pub = IncrementalPublisher()
+    ids = {p.id for p in pub._to_pending_results(wq.initial_groups, [])}
+    bad = []
+    for b in out:
+        f = pub._handle_batch(b).formatted
+        ids |= {e["id"] for e in f.get("pending", [])}
+        bad += [e["id"] for e in f.get("completed", []) if e["id"] not in ids]
+    print("VIOLATION: completed ids never announced: %s" % bad if bad else "OK")
+    return bool(bad)
+raise SystemExit(1 if asyncio.run(main()) else 0)
